@@ -139,6 +139,8 @@ xmd_case!(xmd_m4_d2_l9, 4, 2, 9, 18);
 xmd_case!(xmd_m8_d8_l16, 8, 8, 16, 18);
 
 /// 255 output blocks are served, 256 abort (1-byte digest).  Concrete message and tag.
+/// (xmd_255_blocks_ok / xmd_510_bytes_ok are kept for reference but NOT registered: CBMC's symbolic execution of 255 hash rounds did not
+/// finish in an hour; "255 blocks are served" is decided by the S-euf part of C13.)
 #[kani::proof]
 #[kani::unwind(300)]
 fn xmd_255_blocks_ok() {
